@@ -5,7 +5,7 @@ from .. import cv, gen, lib, ref
 from ..lib import call
 
 PROP = "C04"
-PLAN = {"quick": (2400, 200), "thorough": (120000, 3000)}
+PLAN = {"quick": (2400, 200), "thorough": (40000, 3000)}
 LARGE = (0.04, 64)  # (share, largest size) of the large class of gen.kv: 17+ control points, degree up to 8
 RULE = ("case = (curve, multiset of nodes, class); classes: single new node, node equal to an existing knot of "
         "multiplicity 1..p, repeated nodes, several unsorted nodes, node 0 on intervals where 0 is interior, and invalid "
